@@ -79,7 +79,29 @@ def rename_locals(tree: ast.AST, suffix: str = '_rn') -> ast.AST:
     return tree
 
 
-def make_twin(repo: str, dest: str, rename: bool) -> None:
+class _FlipCompare(ast.NodeTransformer):
+    """a < b -> b > a (and <=, >=, ==, !=): same meaning, other spelling."""
+
+    FLIP = {ast.Lt: ast.Gt, ast.Gt: ast.Lt, ast.LtE: ast.GtE, ast.GtE: ast.LtE, ast.Eq: ast.Eq, ast.NotEq: ast.NotEq}
+
+    def visit_Compare(self, n: ast.Compare) -> ast.AST:
+        self.generic_visit(n)
+        if len(n.ops) == 1 and type(n.ops[0]) in self.FLIP and not isinstance(n.left, ast.Constant) or (len(n.ops) == 1 and type(n.ops[0]) in self.FLIP and isinstance(n.left, ast.Constant)):
+            return ast.copy_location(ast.Compare(left=n.comparators[0], ops=[self.FLIP[type(n.ops[0])]()], comparators=[n.left]), n)
+        return n
+
+
+class _SwapIfElse(ast.NodeTransformer):
+    """if c: A else: B  ->  if not c: B else: A   (plain if/else only, no elif chains)."""
+
+    def visit_If(self, n: ast.If) -> ast.AST:
+        self.generic_visit(n)
+        if n.orelse and not (len(n.orelse) == 1 and isinstance(n.orelse[0], ast.If)) and not (isinstance(n.test, ast.Name) and n.test.id == 'TYPE_CHECKING') and not (isinstance(n.test, ast.Attribute) and n.test.attr == 'TYPE_CHECKING'):
+            return ast.copy_location(ast.If(test=ast.UnaryOp(op=ast.Not(), operand=n.test), body=n.orelse, orelse=n.body), n)
+        return n
+
+
+def make_twin(repo: str, dest: str, rename: bool, extra: str = '') -> None:
     src = os.path.join(repo, 'src', 'zeroconf')
     for dirpath, dirnames, filenames in os.walk(src):
         dirnames[:] = [d for d in dirnames if d != '__pycache__']
@@ -92,6 +114,10 @@ def make_twin(repo: str, dest: str, rename: bool) -> None:
                 tree = ast.parse(open(full, encoding='utf-8').read())
                 if rename:
                     tree = rename_locals(tree)
+                if extra == 'flip':
+                    tree = _FlipCompare().visit(tree)
+                if extra == 'swap':
+                    tree = _SwapIfElse().visit(tree)
                 text = ast.unparse(ast.fix_missing_locations(tree)) + '\n'
                 compile(text, out, 'exec')
                 open(out, 'w', encoding='utf-8').write(text)
@@ -101,10 +127,14 @@ def make_twin(repo: str, dest: str, rename: bool) -> None:
 
 def run(repo: str = '/repo', props: str = 'all') -> int:
     rc_all = 0
-    for rename in (False, True):
+    kinds = [(False, ''), (True, ''), (False, 'flip'), (False, 'swap')]
+    if os.environ.get('VERIF_TWIN_KINDS'):
+        want = os.environ['VERIF_TWIN_KINDS'].split(',')
+        kinds = [k for k in kinds if (('rename' if k[0] else 'plain') if not k[1] else k[1]) in want]
+    for rename, extra in kinds:
         d = tempfile.mkdtemp(prefix='verif-twin-', dir=os.environ.get('TMPDIR') or '/var/tmp')
         try:
-            make_twin(repo, d, rename)
+            make_twin(repo, d, rename, extra)
             env = dict(os.environ)
             env['VERIF_EVIDENCE_DIR'] = os.path.join(d, 'evidence')
             out = ''
@@ -113,7 +143,7 @@ def run(repo: str = '/repo', props: str = 'all') -> int:
                 out += p.stdout + p.stderr
             viol = [l for l in out.splitlines() if l.startswith('VIOLATION') or l.lstrip().startswith('[C')]
             errs = [l for l in out.splitlines() if l.startswith('ANALYSIS-ERROR')]
-            print(f'twin(unparse{"+rename-locals" if rename else ""}): exit {p.returncode}; {len([l for l in out.splitlines() if l.startswith("VIOLATION")])} violation line(s), {len(errs)} analysis error(s)')
+            print(f'twin(unparse{"+rename-locals" if rename else ""}{"+" + extra if extra else ""}): exit {p.returncode}; {len([l for l in out.splitlines() if l.startswith("VIOLATION")])} violation line(s), {len(errs)} analysis error(s)')
             for l in viol[:200]:
                 print('   ', l[:300])
             for l in errs[:40]:
